@@ -30,6 +30,18 @@ def drive(run):
     return r
 
 
+def outer(run):
+    """an instrumented caller whose own variable changes while generators it started are suspended (C09: what a path selector
+    reports of the caller is the caller's state at the time of each step)"""
+    stage = 1
+    run(1)
+    stage = 2
+    run(2)
+    stage = 3
+    run(3)
+    return stage
+
+
 def mk(k):
     """two function objects made by one def share one code object (closures of a factory, wrappers of a decorator)"""
     def h(z):
